@@ -21,10 +21,10 @@ ID = "C19"
 LEVEL = "fault_enumeration"
 SEGMENT_TIMEOUT = 180
 TIERS = {
-    "quick": dict(plans=150, budget_s=70, worlds=4, det_plans=2),
+    "quick": dict(plans=176, budget_s=70, worlds=4, det_plans=2),
     "thorough": dict(plans=6000, budget_s=900, worlds=150, det_plans=8, always_selftest=True),
 }
-LOSSES = ["locus", "locus_sliver", "gene_only", "neutral", "neutral_sparse", "empty", "depth_below", "depth_above", "stream_error", "seam_drop_locus"]
+LOSSES = ["locus", "locus_decoy_sam", "locus_sliver", "gene_only", "neutral", "neutral_sparse", "empty", "depth_below", "depth_above", "stream_error", "seam_drop_locus"]
 ROUTES = ["yml", "bam", "cn"]
 OUTS = ["aldy", "vcf", "simple", "none"]
 # full factorial of loss x route x output x {single, multi}; a batch walks through it
@@ -36,6 +36,8 @@ def applicable(loss, route, multi):
         return False  # no neutral region is consulted with a user-supplied structure
     if route == "cn" and loss == "gene_only":
         return False  # statement does not say what a user-fixed structure means without gene reads
+    if multi and loss == "locus_decoy_sam":
+        return False  # text SAM has no index: indel evidence of every gene is lost (not C19's business)
     if multi and loss in ("neutral", "neutral_sparse", "empty", "depth_below", "depth_above", "stream_error"):
         return False  # these hit every gene of the run
     return True
@@ -132,7 +134,7 @@ def judge(plan, outcome):
     called = bool(res_a) and any(len(x[1]) > 0 for x in res_a)
     has_del = any(al["kind"] == "deletion" for al in ga["alleles"]) and ga["pregions"] is not None
     fired = r["fired"]
-    expect_error = loss in ("locus", "neutral", "neutral_sparse", "empty", "depth_below", "seam_drop_locus")
+    expect_error = loss in ("locus", "locus_decoy_sam", "neutral", "neutral_sparse", "empty", "depth_below", "seam_drop_locus")
     if loss == "gene_only" and not has_del:
         # reads cover the pseudogene but the database has no whole-gene deletion allele: the statement
         # does not say what must happen (the locus is covered, a deletion cannot be called)
@@ -323,6 +325,20 @@ def _lossy_bam(seg, world, smp, loss, path):
     def ref_end(r):
         return r[0] + sum(n for op, n in r[1] if op in (0, 2))
 
+    if loss == "locus_decoy_sam":
+        # whole-genome text SAM without index: the locus itself has no reads, but another contig has
+        # reads at the very same coordinates
+        regs = list(ga["regions"]) + list(ga["pregions"] or [])
+        spans = [(min(a for _, a, b in ga["regions"]), max(b for _, a, b in ga["regions"]))]
+        if ga["pregions"]:
+            spans.append((min(a for _, a, b in ga["pregions"]), max(b for _, a, b in ga["pregions"])))
+        decoy = [r for r in reads if any(r[0] < b and a < ref_end(r) for a, b in spans)]
+        kept = [r for r in reads if r not in decoy]
+        clen = len(world["contig"]["seq"])
+        W.write_bam(path, world, kept, build=seg["build"], fmt="sam", sort=False, index=False,
+                    header_extra=[{"SN": "decoy", "LN": clen}],
+                    extra_records=[(r[0], r[1], r[2], r[3], 0, 60, 40, 1) for r in decoy])
+        return len(reads), len(kept)
     kept = [r for r in reads if not any(r[0] < b and a < ref_end(r) for a, b in spans)]
     if loss == "neutral_sparse":
         # a single read survives in the neutral region: depth far below 2
@@ -383,8 +399,8 @@ def run_segment(seg):
     effective = True
     records = None
     stream = None
-    if loss in ("locus", "locus_sliver", "gene_only", "neutral", "neutral_sparse", "empty"):
-        sam_path = os.path.join(rd, "s0.bam")
+    if loss in ("locus", "locus_decoy_sam", "locus_sliver", "gene_only", "neutral", "neutral_sparse", "empty"):
+        sam_path = os.path.join(rd, "s0.sam" if loss == "locus_decoy_sam" else "s0.bam")
         records = _lossy_bam(seg, world, smp, loss, sam_path)
         effective = records[1] < records[0]
     elif loss == "depth_below":
